@@ -324,6 +324,10 @@ class Lazy:
 
 def check(chk):
     pm = chk.pm
+    # the compute switch (and every other flag) is read from the parameters, never from the metadata dict whose
+    # booleans become strings after the first fit ('False' is truthy: a deferred refit computes)
+    from .common import attrs_reads
+    attrs_reads(chk, "LAZY.flag.attrs")
     lz = Lazy(chk)
     base = pm.cls("xeofs.base_model.BaseModel")
     classes = []
